@@ -39,9 +39,12 @@ CLAIMS = {
             "shape (paths extracted once, at the left-most leaf), a false item always has a reason, untested/valid when nothing is "
             "selected, the verdict and the exact failure list. Differential run of Rule.test plus an independent reference verdict.",
             "DESIGN.md section 7 C05"),
-    "C06": ("6 theorems (ValidaProofs/C06.lean): aggregates, stable sort by path length (sort key read from the source), cast-free rules "
-            "judged independently, permutation invariance of validity / failure count / tested count. The textual report is checked on the "
-            "implementation only (always a str naming every failing path).", "DESIGN.md section 7 C06"),
+    "C06": ("13 theorems (ValidaProofs/C06.lean, C06Report.lean): aggregates, stable sort by path length (sort key read from the source), "
+            "cast-free rules judged independently, permutation invariance of validity / failure count / tested count; the textual report "
+            "is modelled with its literal text regenerated from the source (ValidaGen/ReportFmt): it exists for every validation that "
+            "returned, is the one-line form when valid, starts with the failure and tested counts otherwise, names every failure of every "
+            "rule test (path and value as repr prints them), has one numbered section per invalid rule and at least one reason line per "
+            "failure. Differential run incl. the whole report text and repr() at primitive level.", "DESIGN.md section 7 C06"),
     "C07": ("7 theorems (ValidaProofs/C07.lean, C07Casts.lean). Headline `C07_validate_total`: for every schema of modifier-free paths, "
             "value-kind literal-argument conditions and casts declared from `str`, and every well-formed document (hashable, pairwise "
             "unequal mapping keys), `validate` raises nothing - casts included: the write-back into the working copy cannot fail because "
@@ -103,7 +106,8 @@ CLAIMS = {
             "outcome is acceptance or one of the allowed spec errors (mutual induction on fuel over the five parsers; guards read from the "
             "source), KeyError only for a missing path / condition, plus ten families of definite errors rejected.",
             "DESIGN.md section 7 C19"),
-    "C20": ("15 theorems (ValidaProofs/C20.lean): parents precede and are path prefixes, totality for prefix-closed keys, each rule's node "
+    "C20": ("23 theorems (ValidaProofs/C20.lean, C20TypeFmt.lean): the formatter of type-like conditions (model Valida.TypeFmt) returns a text "
+            "for every non-empty list of type / length / membership conditions of the domain, names the library's types, joins with ', '; parents precede and are path prefixes, totality for prefix-closed keys, each rule's node "
             "carries it, keys unique, a key named by an always-applicable required_keys is flagged required whatever else names it, conditions "
             "under or / xor flag nothing, flat and nested forms have the same nodes; HTML: html.escape leaves no < > quote, the back-tick "
             "scanner emits balanced code tags, every rendering is well-formed (Dyck) and schema text only occurs in escaped tokens. The tree "
